@@ -13,7 +13,7 @@
 (* Run: apalache-mc check --init=IndInit --inv=IndInv --length=1 ApaSwap.tla    *)
 (*      apalache-mc check --init=IndInit --inv=Conclusions --length=0 ...       *)
 (* (harness/props/apaswap.py, used by C01 and C06 thorough tiers).              *)
-EXTENDS ApaSwapOps, Apalache
+EXTENDS ApaSwapOps, Apalache   \* (kept outside spec/*.tla: the Apalache module is not on the TLC / SANY classpath; harness/apaswap.sh copies ApaSwapOps next to it)
 
 VARIABLES
   \* @type: Str;
